@@ -10,7 +10,10 @@
 //   - guarded-by rows: for every field of a struct of package spine (and of
 //     the two model helper receivers named in C17's anchors) that is written
 //     after construction, every access with the set of mutexes that are
-//     (must-)held there.
+//     (must-)held there;
+//   - address escapes of shared fields (escapes.go) and, for slice- and map-typed
+//     fields, header escapes vs in-place writers of the backing store
+//     (containers.go).
 //
 // Output: <out>/Locks.lean (Lean tables, deterministic, human-readable) and
 // <out>/locks.json (the same facts with witnesses, for the harness/evidence).
@@ -174,6 +177,7 @@ type analysis struct {
 	siteCallees map[ssa.CallInstruction][]*ssa.Function
 	spawned     map[*ssa.Function]bool
 	repo        string
+	insMust     map[ssa.Instruction]set // must-held set (local) at element reads and calls, for containers.go
 }
 
 func pkgPathOf(fn *ssa.Function) string {
@@ -664,6 +668,10 @@ func (a *analysis) local(ff *fnFacts) {
 			}
 			if record {
 				a.recordAccess(ff, ins, must)
+				switch ins.(type) {
+				case *ssa.IndexAddr, *ssa.Index, *ssa.Lookup, *ssa.Range, ssa.CallInstruction:
+					a.insMust[ins] = must.clone()
+				}
 			}
 		}
 		return state{may: may, must: mustSet{s: must}}
@@ -1046,7 +1054,7 @@ func main() {
 		}()
 	}
 	_ = instrSummary
-	a := &analysis{prog: prog, fset: prog.Fset, cg: cha.CallGraph(prog), repo: repo, spawned: map[*ssa.Function]bool{}}
+	a := &analysis{prog: prog, fset: prog.Fset, cg: cha.CallGraph(prog), repo: repo, spawned: map[*ssa.Function]bool{}, insMust: map[ssa.Instruction]set{}}
 	a.buildSiteIndex()
 	a.collect(spkgs)
 
@@ -1503,6 +1511,28 @@ func main() {
 	w("/-- fields used through sync/atomic (or as receiver of a sync type) that ALSO have a plain access after construction -/\ndef mixedAtomic : List String := [%s]\n", quoteList(mixed))
 	w("-- fields only ever used atomically / through package sync: %s\n", strings.Join(ef.atomic.sorted(), ", "))
 	w("-- address taken of fields never written after construction (pointer handed out; harmless while nobody writes): %s\n\n", strings.Join(escOther, "; "))
+	// container escapes (containers.go)
+	cf := a.containers(entryMust, common)
+	cid := map[string]int{}
+	w("/-- slice- and map-typed fields of the analysed structs (the field holds a header; the elements live in a backing\n    store shared by every copy of the header) -/\ndef containerNames : List (Nat × String) := [\n")
+	for i, f := range cf.fields {
+		cid[f] = i
+		w("  (%d, %q)%s\n", i, f, comma(i, len(cf.fields)))
+	}
+	w("]\n\n")
+	emitC := func(name, doc string, m map[string][]string) {
+		w("/-- %s -/\ndef %s : List (Nat × String) := [\n", doc, name)
+		var rows []string
+		for _, f := range cf.fields {
+			for _, site := range m[f] {
+				rows = append(rows, fmt.Sprintf("  (%d, %q)", cid[f], racFieldTrim(f)+": "+site))
+			}
+		}
+		w("%s\n]\n\n", strings.Join(rows, ",\n"))
+	}
+	emitC("containerEscapes", "(field, site): the header of the field's current value leaves the critical section without a copy of the elements\n    — returned, stored elsewhere, sent, handed to a goroutine, or its elements are read where the field's common lock is\n    not held: whoever holds it reads the backing store WITHOUT the lock", cf.escapes)
+	emitC("containerInPlace", "(field, site): after construction the backing store of the field's value is modified IN PLACE — element assignment,\n    copy() into it, clear(), map update / delete, append onto a reslice, a reslice stored back, or a callee that does one\n    of these to its parameter (callee bodies analysed: slices.Delete*, Insert, Compact*, Reverse, Sort*, …)", cf.inplace)
+	emitC("containerCowWrites", "(field, site): the copy-on-write writers — the field is replaced by a value that does not share the old backing\n    store, or appended to as a whole (writes only the cell at index len, which no earlier header covers)", cf.cow)
 	w("/-- a mutex held (in any mode) at every post-construction access of the field and exclusively at every write (the smallest such id) -/\ndef commonLock : Nat → Option Nat\n")
 	for i, f := range shared {
 		if c := common[f]; len(c) > 0 {
@@ -1571,6 +1601,19 @@ func main() {
 	js["address_escapes_immutable"] = escOther
 	js["atomic_fields"] = ef.atomic.sorted()
 	js["mixed_atomic"] = mixed
+	js["container_fields"] = cf.fields
+	js["container_escapes"] = cf.escapes
+	js["container_inplace"] = cf.inplace
+	js["container_cow_writes"] = cf.cow
+	{
+		var conflict []string
+		for _, f := range cf.fields {
+			if len(cf.escapes[f]) > 0 && len(cf.inplace[f]) > 0 {
+				conflict = append(conflict, f)
+			}
+		}
+		js["container_conflicts"] = conflict
+	}
 	js["undisciplined"] = undisciplined
 	js["common_lock"] = common
 	js["immutable_after_construction"] = immutable
@@ -1650,6 +1693,8 @@ func normName(s string) string {
 	s = reAnon.ReplaceAllString(s, "")
 	return strings.TrimPrefix(s, "spine.")
 }
+
+func racFieldTrim(f string) string { return strings.TrimPrefix(f, "spine.") }
 
 func comma(i, n int) string {
 	if i+1 < n {
